@@ -208,6 +208,33 @@ def clock_family(ctx) -> list:
     return out
 
 
+def handon_family(ctx) -> list:
+    """sessions in which the validator follows what the server hands on to a *later* request – the
+    PatchLocation chain of `patch=1` (every refresh is a request to the URL the previous answer spelled out) and
+    plain manifest reloads – for option vectors that decide WHICH media is selected (drm=…, acodec, abr) on
+    stream layouts where the selection matters: a stream that holds only encrypted renditions, clear-only
+    streams, a single audio codec; twins (bbb: every track clear and encrypted) for contrast.  Pristine, at
+    least three refreshes each: the stream the server generated must stay error-free along the whole chain."""
+    import c18_run
+    import c18_layouts
+    for name, info in c18_layouts.STREAMS.items():
+        STREAMS.setdefault(name, {"vod_max": (4 if name == "c18lg" else c18_layouts.DURATION_S - 4), "enc": info["enc"]})
+    now = NOW_POOL[0]
+    grid = [("c18ld", {"drm": "clearkey"}), ("c18lf", {"drm": "playready"}), ("c18la", {}), ("c18la", {"abr": "0"}),
+            ("bbb", {"drm": "playready"}), ("bbb", {"acodec": "ec-3"}), ("c18lc", {"acodec": "ec-3"})]
+    if ctx.thorough:
+        grid += [("c18ld", {"drm": "all"}), ("c18lf", {"drm": "marlin"}), ("tears", {"abr": "0"}),
+                 ("bbb", {"drm": "clearkey", "abr": "0"}), ("c18ld", {"drm": "playready", "mup": "4"})]
+    out = []
+    for stream, q in grid:
+        out.append(c18_run.Case(stream, "hand_made.mpd", "live", dict(q, patch="1", timeline="1", depth="30"), 62, now))
+    # the same selections through plain reloads (no patch), $Number$ addressing
+    for stream, q in [("c18ld", {"drm": "clearkey"}), ("c18la", {"abr": "0"})] + \
+            ([("c18lf", {"drm": "playready"}), ("bbb", {"acodec": "ec-3"})] if ctx.thorough else []):
+        out.append(c18_run.Case(stream, "hand_made.mpd", "live", dict(q, depth="30"), 62, now))
+    return out
+
+
 def layout_family(ctx, rng) -> list:
     """the acceptance half over stored-media layout variety (harness/c18_layouts.py: largesize mdat headers,
     version-1 tfdt, explicit / implicit base, styp+sidx, no tfdt, default sample durations, senc before
@@ -281,8 +308,11 @@ def gen_pristine(ctx, rng):
                         dur = rng.choice([8, 12, 16, 24])
                         dur = min(dur, STREAMS[stream]["vod_max"])
                     cases.append(c18_run.Case(stream, name, mode, q, dur, now))
-    # the fixed grids come first (the sampled option sets above follow them): deterministic in every tier
-    cases = clock_family(ctx) + layout_family(ctx, rng) + refresh_family(ctx, rng) + cases
+    # the fixed grids come first (the sampled option sets above follow them): deterministic in every tier and
+    # exempt from the time limit of the pristine phase
+    fixed = handon_family(ctx) + clock_family(ctx) + layout_family(ctx, rng) + refresh_family(ctx, rng)
+    _STATE["n_fixed"] = len(fixed)
+    cases = fixed + cases
     # tears in quick: two cases
     if not ctx.thorough:
         from dashlive.server.manifests import manifest_map
@@ -1275,6 +1305,12 @@ def run_sessions(app, cases, chs, batch, limit_s=None):
         c = case.corruption
         if c is None:
             run.count(f"pristine-stream:{case.stream}:{case.mode}")
+            if case.mode == "live":
+                n_patch = sum(1 for ex in res.exchanges if ex.cls == "patch")
+                n_man = sum(1 for ex in res.exchanges if ex.cls == "manifest")
+                if n_patch + n_man - 1 >= 3 and any(k in case.query for k in ("drm", "acodec", "abr")):
+                    run.count("hand-on:" + ("patch-chain" if n_patch else "reload") + f":{case.stream}:" +
+                              ",".join(f"{k}={case.query[k]}" for k in ("drm", "acodec", "abr") if k in case.query))
         label = "pristine" if c is None else (("probe:" if c.get("probe") else "") + c["kind"])
         if c is not None and res.applied is None:
             run.count(f"not-applicable:{label}")
@@ -1323,7 +1359,9 @@ def channels(ctx):
     pristine = gen_pristine(ctx, rng)
     budget = 75 if not ctx.thorough else 560
     t0 = time.time()
-    done = run_sessions(app, pristine, chs, batch, limit_s=budget * .45)
+    n_fixed = _STATE.get("n_fixed", 0)
+    done = run_sessions(app, pristine[:n_fixed], chs, batch, limit_s=None)
+    done += run_sessions(app, pristine[n_fixed:], chs, batch, limit_s=max(5, budget * .45 - (time.time() - t0)))
     corrupted = []
     per_base = 8 if not ctx.thorough else 16
     for case, res in done:
